@@ -84,6 +84,15 @@ class C19(Check):
                 progs.append(([("file", nb, Opts(large=True, pw=pw)), ("write", b"x"), ("file", b"second", Opts()), ("finish",)], [nm, "second"]))
             progs.append(([("extra", nb, Opts()), ("endextra",), ("write", b"y"), ("finish",)], [nm]))
             progs.append(([("aligned", nb, Opts(), 64), ("write", b"z"), ("finish",)], [nm]))
+        # raw copies keep the NAME (the decoded string), whatever encoding the source stored it in: CP437 names without
+        # the UTF-8 flag come out as the same text, now flagged UTF-8
+        import genzip as _gz
+        srcs = [(b"caf\x82.txt", False), ("\u65e5\u672c/\u00fc".encode("utf-8"), True), (b"\xff\xfe\x80", False), (b"plain", False), ("caf\u00e9".encode("utf-8"), False)]
+        src = _gz.build([_gz.Entry(n, b"src %d" % i, utf8=u, method=(8 if i % 2 else 0)) for i, (n, u) in enumerate(srcs)])[0]
+        want = [n.decode("utf-8") if u else n.decode("cp437") for n, u in srcs]
+        for i in range(len(srcs)):
+            progs.append(([("rawcopy", src, i, None), ("finish",)], [want[i]]))
+        progs.append(([("file", b"first", Opts())] + [("rawcopy", src, i, None) for i in range(len(srcs))] + [("finish",)], ["first"] + want))
         lines, outs = wprog.with_tables(self.exes["debug"], [dict(ops=o) for o, _ in progs])
         for l, (o, exp) in zip(lines, progs):
             cases.append((l, {"k": "wprog", "names": exp}))
